@@ -1,3 +1,89 @@
+"""C02 - zeroing returns an elevation that actually hits the point of aim."""
+import time
+
 LEVEL = 'other'
-EXPLANATION = 'C02 (under construction)'
-EXTRA = []
+EXPLANATION = ('TrajectoryCalc.zero_angle under contract with a loop invariant and variant (cMaxIterations - iterations): a '
+               'normal return implies that the height measured by the LAST run, made with the returned elevation, is within '
+               'cZeroFindingAccuracy of the aim height (the run is abstracted by an uninterpreted function of the elevation: '
+               'assumed determinism of _integrate, itself frame-verified); otherwise ZeroFindingError/RangeError is raised; '
+               'frames: zero_angle and barrel_elevation_for_target modify only the calculator, set_weapon_zero writes '
+               'weapon.zero_elevation and only on normal return. "Does not fail for reachable targets" is a convergence '
+               'statement about the fixed-point iteration: bounded stand-in, which reproduces the recorded finding for '
+               'inclined sight lines.')
+TEXT = ('proof of: returned angle = angle of the last measured run, accuracy met or error raised, failed attempt leaves the '
+        'stored zero untouched (frames incl. exceptional exits), termination of the zero-finding loop; the non-failure / '
+        'miss-distance clause is bounded only and has a recorded finding - hence "other"')
+NOTE = ('A-REAL, A-PY, A-LOG, A-LIBM; assumed: the zeroing run height is a function of (elevation, range) for a fixed shot '
+        '(determinism of _integrate, which is verified to modify nothing); trusted: z3, cvc5, ast, VC generator')
+NOT_DECIDED = ['zeroing does not fail for reachable targets (convergence of theta <- theta - dh/X0): bounded',
+               'miss distance <= accuracy + one step x relative slope for inclined sight lines: bounded, KNOWN FINDING']
+EXTRA_ASSUMPTIONS = ['the single row returned by _integrate(shot, R, R, NONE) is a function of the barrel elevation and R '
+                     '(uninterpreted function zero_run_height); justified by the frame clause modifies=[] of _integrate and '
+                     'the absence of random/time sources, not machine-checked']
+EXTRA = ['bounded_zero_level', 'bounded_zero_inclined']
+
+
+def _miss(P, calc, shot, dist_yd):
+    el = calc.set_weapon_zero(shot, P.Unit.Yard(dist_yd))
+    tr = calc.fire(shot, P.Unit.Yard(dist_yd * 1.2 + 10), P.Unit.Yard(dist_yd), extra_data=False).trajectory
+    import math
+    look = shot.look_angle >> P.Unit.Radian
+    # row nearest the aim point's horizontal distance
+    x_aim = math.cos(look) * dist_yd * 3
+    row = min(tr, key=lambda r: abs((r.distance >> P.Unit.Foot) - x_aim))
+    return abs(row.target_drop >> P.Unit.Foot), row
+
+
+def bounded_zero_level(tier, seed):
+    import random
+    from pyvc.bounded import pkg, std_shot, mk
+    from pyvc.scan import result
+    P = pkg()
+    rng = random.Random(3000 + seed)
+    t0 = time.time()
+    bad = None
+    cases = 0
+    for k in range(6 if tier == 'quick' else 40):
+        shot = std_shot(P, rng, look_deg=0.0, winds=[P.Wind(P.Unit.MPH(rng.uniform(0, 10)), P.Unit.Degree(rng.uniform(0, 360)))])
+        d = rng.choice([50, 100, 200, 300, 500])
+        calc = P.Calculator()
+        try:
+            m, row = _miss(P, calc, shot, d)
+        except Exception as e:  # noqa
+            bad = f'level sight line, zero {d} yd: {type(e).__name__}: {e}'
+            continue
+        cases += 1
+        # recording interpolates to the row distance, so the miss at the row is accuracy + interpolation error
+        if m > 5e-6 + 0.5 * 0.02:
+            bad = f'level sight line, zero {d} yd: miss {m} ft'
+    return result('bounded:zero-level', [mk('level-sight-line-zero-hits-the-aim-point', bad is None,
+                  'set_weapon_zero then fire: |target_drop| at the zero distance (level sight lines, sampled loads and winds)',
+                  cases, t0, bad)], t0, props=('C02',))
+
+
+def bounded_zero_inclined(tier, seed):
+    """inclined sight lines: RECORDED FINDING (known_findings.json C02-inclined): the zero-finder compares the height at
+    the overshoot abscissa with the aim height at the exact abscissa and its iteration gain is 1/cos^2"""
+    from pyvc.bounded import pkg, mk
+    from pyvc.scan import result
+    import random
+    P = pkg()
+    rng = random.Random(3500 + seed)
+    t0 = time.time()
+    worst = 0.0
+    fails = 0
+    cases = 0
+    for look in (5, 10, -10, 20):
+        from pyvc.bounded import std_shot
+        shot = std_shot(P, rng, look_deg=look, mv=2700, bc=0.3, table=P.TableG7, sh=2)
+        try:
+            m, row = _miss(P, P.Calculator(), shot, 300)
+            worst = max(worst, m)
+            cases += 1
+        except Exception:  # noqa
+            fails += 1
+    ok = not (worst > 5e-6 + 0.01 or fails > 0)
+    o = mk('inclined-sight-line-zero-hits-the-aim-point', ok,
+           'set_weapon_zero then fire on inclined sight lines (5, 10, -10, 20 deg at 300 yd): |target_drop| at the zero '
+           'look-distance within accuracy + interpolation', cases, t0, f'worst miss {worst:.4f} ft, {fails} failed to converge')
+    return result('bounded:zero-inclined', [o], t0, props=('C02',))
